@@ -396,6 +396,9 @@ type modTarget struct {
 	region bool
 	sl     Val  // slice whose contents [lo,hi) are modified
 	lo, hi Term // relative to the slice
+	isMap  bool // the contents of map object mapID (of map type mapT) are modified
+	mapID  Term
+	mapT   types.Type
 }
 
 // evalModLoc resolves a modifies-expression to a target in the given environment.
@@ -405,6 +408,14 @@ func (e *Env) evalModLoc(x Expr) modTarget {
 	case *ECall:
 		if n.Fn == "ghost" {
 			return modTarget{loc: e.ghostLoc(n)}
+		}
+		if n.Fn == "contents" && len(n.Args) == 1 {
+			// contents(m): the entries of the map m denotes (not the variable/field holding m)
+			v := e.eval(n.Args[0])
+			if v.K != KMap {
+				sfail("contents(m) needs a map")
+			}
+			return modTarget{isMap: true, mapID: v.S, mapT: v.T}
 		}
 		if n.Fn == "region" {
 			b := e.eval(n.Args[0])
@@ -488,6 +499,10 @@ func (e *Env) evalModLoc(x Expr) modTarget {
 			return modTarget{region: true, sl: b, lo: i.S, hi: app("+", i.S, "1")}
 		}
 	}
+	// a map-valued expression: the contents of that map
+	if v, err := e.EvalVal(x); err == nil && v.K == KMap {
+		return modTarget{isMap: true, mapID: v.S, mapT: v.T}
+	}
 	sfail("unsupported modifies target")
 	return modTarget{}
 }
@@ -510,6 +525,23 @@ func (vc *VC) havocModLoc(st *State, env *Env, m ModLoc, key string) {
 
 func (vc *VC) havocTarget(st *State, tg modTarget) {
 	switch {
+	case tg.isMap:
+		_, vt, _, ok := vc.mapComps(tg.mapT)
+		if !ok {
+			vc.unsupportedf("modifies map of unsupported type %s", tg.mapT)
+			vc.havocAll(st)
+			return
+		}
+		mid := vc.patAtom(tg.mapID, "Int")
+		leaves := []struct{ suffix, sort string }{{".has", "Bool"}}
+		for _, lf := range leavesOf(vt) {
+			leaves = append(leaves, struct{ suffix, sort string }{".val" + lf.Path, lf.Sort})
+		}
+		for _, l := range leaves {
+			name, _, h := vc.mapHeap(st, tg.mapT, l.suffix, l.sort)
+			nh := vc.heapHavoc(st, name)
+			vc.axiom(fmt.Sprintf("(forall ((o Int)) (! (=> (not (= o %s)) (= (select %s o) (select %s o))) :pattern ((select %s o))))", mid, nh, h, nh))
+		}
 	case tg.region:
 		et := tg.sl.T.Underlying().(*types.Slice).Elem()
 		if k := kindOf(et); k == KStruct || k == KArray {
@@ -593,7 +625,13 @@ func (vc *VC) frameConds(st *State) []frameCond {
 			// maps: object-level frame
 			vc.counter++
 			o := fmt.Sprintf("fo!%d", vc.counter)
-			cond := fmt.Sprintf("(forall ((%s Int)) (=> (and (<= 0 %s) (< %s alloc0)) (= (select %s %s) (select %s %s))))", o, o, o, cur, o, base, o)
+			var mexcl []Term
+			for _, t := range targets {
+				if t.isMap && strings.HasPrefix(comp, "map:"+typeKey(t.mapT)+".") {
+					mexcl = append(mexcl, eq(o, t.mapID))
+				}
+			}
+			cond := fmt.Sprintf("(forall ((%s Int)) (=> (and (<= 0 %s) (< %s alloc0) %s) (= (select %s %s) (select %s %s))))", o, o, o, not(or(mexcl...)), cur, o, base, o)
 			out = append(out, frameCond{comp, cond, "map contents outside modifies changed: " + comp})
 			continue
 		}
